@@ -1056,6 +1056,9 @@ class Interp:
             base = self.eval(e.func.value, env)
             if isinstance(base, Obj):
                 r = self.method(base, e.func.attr)
+                if r is None and e.func.attr in base.fields:
+                    # a function value kept in an instance attribute
+                    return self.apply(base.fields[e.func.attr], args, kw)
                 if r is None:
                     raise AnalysisError(f"method {fname} not found")
                 recv = [] if _is_static(r[1]) else [base]
